@@ -59,6 +59,7 @@ class Ctx:
         self.t0 = time.time()
         self.scratch = tempfile.mkdtemp(prefix="verif-%s-" % prop)
         self.violations = []          # list of replay paths
+        self.compiler_reuse = []      # records of mlang.Compile's long-lived-compiler comparison (report_compiler_reuse)
         self.known = []               # KNOWN-FINDING lines printed
         self.cov = {                  # evidence coverage accumulators
             "states": 0, "transitions": 0, "traces_validated_against_impl": 0,
@@ -238,13 +239,33 @@ def run_harness(ctx, binary, args=(), cases=None, timeout=600, env=None, infile=
         line = line.strip()
         if line.startswith("{"):
             try:
-                out.append(json.loads(line))
+                rec = json.loads(line)
             except ValueError:
-                pass
+                continue
+            if isinstance(rec, dict) and "compiler_reuse" in rec and len(rec) == 1:
+                ctx.compiler_reuse.append(rec["compiler_reuse"])      # see report_compiler_reuse
+                continue
+            out.append(rec)
     if r.returncode != 0:
         raise InfraError("harness %s exited %d:\n%s\n%s" % (
             os.path.basename(binary), r.returncode, r.stdout[-2000:], r.stderr[-4000:]))
     return out
+
+
+def report_compiler_reuse(ctx):
+    """mlang.Compile compiles every source also on a long-lived compiler that has compiled (and refused) other sources
+    before, as the program loader does.  A different result that the harness reproduced from a clean start with the
+    two-step sequence (last refused source, this source) is a violation of every property that speaks about what
+    compiling a program yields; unreproduced differences are only counted."""
+    recs = ctx.compiler_reuse
+    ctx.cov["compiles_repeated_on_a_used_compiler"] = True
+    if not recs:
+        return
+    ctx.cov["compiler_reuse_differences"] = {"reproduced": sum(1 for r in recs if r.get("reproduced")), "unreproduced": sum(1 for r in recs if not r.get("reproduced"))}
+    for r in [x for x in recs if x.get("reproduced")][:2]:
+        ctx.violation({"kind": "compiler_reuse", **r},
+                      "the same source compiles differently on a compiler that has refused another program before: after %r, "
+                      "%r gives %s where a fresh compiler gives %s" % (r["prev_source"][-120:], r["source"][-160:], r["reused_again"][:160], r["fresh"][:160]))
 
 
 # ---------------------------------------------------------------------------
